@@ -97,12 +97,40 @@ func ZZ_C15_EndToEnd() {
 	n := zzConcretize(zzChoice("len", 3)) + 1
 	buf := make([]byte, n)
 	off := zzNondetInt64("off")
-	switch op {
-	case 0:
+	if op == 0 {
 		for i := range buf {
 			buf[i] = zzNondetByte("payload")
 		}
-		got, err := cl.WriteAt(buf, off)
+	}
+	// the request runs in its own goroutine: whatever the replica answers - data, an
+	// error, EOF - its reply must complete the request; only a stalled peer leaves a
+	// request to its deadline
+	var got int
+	var err error
+	done := make(chan bool, 1)
+	go func() {
+		switch op {
+		case 0:
+			got, err = cl.WriteAt(buf, off)
+		case 1:
+			got, err = cl.ReadAt(buf, off)
+		case 2:
+			_, err = cl.Sync()
+		case 3:
+			_, err = cl.Unmap(off, 4096)
+		default:
+			err = cl.Ping()
+		}
+		done <- true
+	}()
+	zzSettleMs(400)
+	zzAssert(len(done) == 1, "C15.e2e.request-not-completed-by-the-replica's-reply")
+	if len(done) != 1 {
+		return
+	}
+	zzAssert(len(closeChan) == 0 && cl.err == nil, "C15.e2e.connection-declared-failed-although-the-replica-answered")
+	switch op {
+	case 0:
 		if data.lastWrite != nil {
 			zzReach("C15.e2e.write-ok")
 			zzAssert(err == nil && got == n, "C15.e2e.write-result")
@@ -115,7 +143,6 @@ func ZZ_C15_EndToEnd() {
 			zzAssert(err != nil, "C15.e2e.replica-write-error-not-reported")
 		}
 	case 1:
-		got, err := cl.ReadAt(buf, off)
 		if err == nil {
 			zzReach("C15.e2e.read-ok")
 			zzAssert(got == n, "C15.e2e.read-result")
@@ -127,14 +154,10 @@ func ZZ_C15_EndToEnd() {
 		}
 		zzAssert(data.reads == 1, "C15.e2e.read-not-delivered-once")
 	case 2:
-		_, err := cl.Sync()
 		zzAssert(data.syncs == 1, "C15.e2e.sync-not-delivered-once")
-		_ = err
 	case 3:
-		cl.Unmap(off, 4096)
 		zzAssert(data.unmaps == 1, "C15.e2e.unmap-not-delivered-once")
 	default:
-		err := cl.Ping()
 		zzAssert(err == nil && data.pings == 1, "C15.e2e.ping")
 	}
 	zzAssert(len(cl.messages) == 0, "C15.e2e.request-left-pending")
